@@ -409,6 +409,7 @@ class Engine:
             try:
                 env, loops, finish = harness(path)
                 interp = Interp(self, path, loops, extracted)
+                path.interp = interp
                 try:
                     interp.bind_defaults(env)
                     try:
@@ -479,6 +480,26 @@ def assigned_names(stmts):
     return names
 
 
+class ChainEnv(dict):
+    """Local variables of a nested function call; other names resolve in the defining environment."""
+
+    def __init__(self, parent):
+        dict.__init__(self)
+        self.parent = parent
+
+    def own(self):
+        return dict.keys(self)
+
+    def __contains__(self, k):
+        return dict.__contains__(self, k) or k in self.parent
+
+    def __missing__(self, k):
+        return self.parent[k]
+
+    def get(self, k, default=None):
+        return self[k] if k in self else default
+
+
 class Interp:
     def __init__(self, eng, path, loops, extracted):
         self.eng, self.path, self.loops, self.x = eng, path, loops or {}, extracted
@@ -501,6 +522,37 @@ class Interp:
             t = type(node).__name__
             self.stmt_ordinals[id(node)] = '%s#%d' % (t, counts.get(t, 0))
             counts[t] = counts.get(t, 0) + 1
+
+    def call_closure(self, clo, args, kwargs):
+        """Call of a nested function of the function under contract: its body is executed in place (it is part of the
+        verified text), free variables resolve in the defining environment."""
+        if not getattr(clo, 'callable', False):
+            raise Unsupported('call of nested function %s with a complex signature' % clo.node.name)
+        params = [x.arg for x in clo.node.args.args]
+        if len(args) > len(params):
+            raise PyRaise('TypeError')
+        inner = ChainEnv(clo.env)
+        for nm, v in zip(params, args):
+            inner[nm] = v
+        for nm, v in kwargs.items():
+            if nm not in params or nm in inner.own():
+                raise PyRaise('TypeError')
+            inner[nm] = v
+        nd = len(clo.defaults)
+        for nm, v in zip(params[len(params) - nd:], clo.defaults):
+            if nm not in inner.own():
+                inner[nm] = v
+        for nm in params:
+            if nm not in inner.own():
+                raise PyRaise('TypeError')
+        body = clo.node.body
+        if body and isinstance(body[0], ast.Expr) and isinstance(body[0].value, ast.Constant) and isinstance(body[0].value.value, str):
+            body = body[1:]
+        try:
+            self.exec_block(body, inner)
+        except _Return as r:
+            return r.value
+        return NONE
 
     def bind_defaults(self, env):
         """Parameters the harness leaves unbound get their default expression from the real signature
@@ -597,7 +649,14 @@ class Interp:
             # a closure: the function text plus the defining environment (captured by reference)
             if st.decorator_list:
                 raise Unsupported('decorated nested function %s' % st.name)
-            env[st.name] = ClosureV(st, env)
+            clo = ClosureV(st, env)
+            a = st.args
+            if a.vararg or a.kwarg or a.kwonlyargs or a.posonlyargs:
+                clo.callable = False
+            else:
+                clo.callable = True
+                clo.defaults = [self.eval(d, env) for d in a.defaults]      # default values are evaluated at definition time
+            env[st.name] = clo
         else:
             raise Unsupported('statement %s' % type(st).__name__)
 
@@ -1278,6 +1337,8 @@ class Interp:
     def call(self, f, args, kwargs):
         if isinstance(f, FuncV):
             return f.fn(self.path, args, kwargs)
+        if isinstance(f, ClosureV):
+            return self.call_closure(f, args, kwargs)
         if isinstance(f, ClassV):
             if f.name in EXC:
                 return ObjV(f.name)
